@@ -165,7 +165,12 @@ def target_matrices(case):
                 if h == "absent":
                     continue
                 lo, hi = (a, b) if a <= b else (b, a)
-                m[a + b] = 0.0 if h == "zero" else positive(tgt["seed"], ti, lo, hi)
+                w = positive(tgt["seed"], ti, lo, hi)
+                if tgt.get("huge") and positive(tgt["seed"] + 13, ti, lo, hi) < 0.55:
+                    # un-normalised targets are legal (only ratios of weights matter): about half of the pairings
+                    # carry weights whose pairwise products leave the double range
+                    w *= 1e160
+                m[a + b] = 0.0 if h == "zero" else w
         mats[cname] = m
     return mats, holes
 
@@ -191,6 +196,8 @@ def mcmc_case(draw, tier, holes=False, maxN=None):
     if holes:
         tgt["holes"] = [[draw(st.integers(0, 2)), draw(st.integers(0, 30)), draw(st.integers(0, 30)),
                          draw(st.sampled_from(["absent", "zero"]))] for _ in range(draw(st.integers(1, 12)))]
+        if draw(st.integers(0, 3)) == 0:
+            tgt["huge"] = True
     r = draw(st.one_of(
         st.fixed_dictionaries({"mode": st.just("seed"), "seed": st.integers(0, 2 ** 31)}),
         st.fixed_dictionaries({"mode": st.just("seed"), "seed": st.integers(0, 2 ** 31)}),
